@@ -259,6 +259,65 @@ def loop_exit_rule(ctx, rule, callers=None):
                    m.loc(f))
     return n
 
+SIBLINGS_REF = os.path.join(os.path.dirname(os.path.dirname(os.path.abspath(__file__))), 'siblings.json')
+
+
+def _arm_tokens(body):
+    out = []
+    for st in iter_child_stmts(body):
+        if isinstance(st, (ast.If, ast.While)):
+            out += ['<%s>' % type(st).__name__] + norm(st.test).split()
+        elif isinstance(st, ast.For):
+            out += ['<For>'] + norm(st.target).split() + ['in'] + norm(st.iter).split()
+        elif isinstance(st, (ast.Try, ast.With)):
+            out.append('<%s>' % type(st).__name__)
+        else:
+            out += norm(st).split() + [';']
+    return out
+
+
+def sibling_pairs(f):
+    """if/else (or if/elif) arms of f with at least two statements each"""
+    import difflib
+    out = []
+    for n in walk_no_nested(f):
+        if isinstance(n, ast.If) and n.body and n.orelse:
+            orelse = n.orelse
+            if len(orelse) == 1 and isinstance(orelse[0], ast.If):
+                orelse = orelse[0].body
+            a, b = _arm_tokens(n.body), _arm_tokens(orelse)
+            if len(list(iter_child_stmts(n.body))) >= 2 and len(list(iter_child_stmts(orelse))) >= 2:
+                sm = difflib.SequenceMatcher(None, a, b, autojunk=False)
+                diff = sorted({'%s -> %s' % (' '.join(a[i1:i2]), ' '.join(b[j1:j2]))
+                               for tag, i1, i2, j1, j2 in sm.get_opcodes() if tag != 'equal'})
+                out.append((norm(n.test), round(sm.ratio(), 3), diff, n))
+    return out
+
+
+def sibling_rule(ctx, rule, callers=None):
+    """two arms that are near-copies of each other on the reference tree may only change together"""
+    if not os.path.exists(SIBLINGS_REF):
+        return 0
+    ref = json.load(open(SIBLINGS_REF))
+    n = 0
+    for m, q, f in ctx.repo.functions():
+        name = '%s.%s' % (m.name, q)
+        if name not in ref:
+            continue
+        if callers is not None and not any(name == c or name.startswith(c + '.') or c == m.name for c in callers):
+            continue
+        cur = {t: (ratio, diff, node) for t, ratio, diff, node in sibling_pairs(f)}
+        for test, rdiff in ref[name].items():
+            if test not in cur:
+                continue          # the branching itself was restructured: not comparable
+            n += 1
+            ratio, diff, node = cur[test]
+            new = [d for d in diff if d not in rdiff]
+            ctx.ob(rule, '%s:sibling-arms-of-`%s`-change-together' % (name, test[:50]), not new,
+                   'the two arms of `if %s` are near-copies on the reference tree; they now differ in a new way: %s' % (
+                       test[:60], [d[:100] for d in new[:3]] or 'no'), m.loc(node))
+    return n
+
 
 def general_rules(ctx, tag, callers):
     """the generic regression rules restricted to the functions a property depends on"""
@@ -269,3 +328,4 @@ def general_rules(ctx, tag, callers):
     param_mutation_rule(ctx, tag + '.CS3', callers=callers)
     flag_identity_rule(ctx, tag + '.CS4', callers=callers)
     loop_exit_rule(ctx, tag + '.CS6', callers=callers)
+    sibling_rule(ctx, tag + '.CS7', callers=callers)
